@@ -33,6 +33,9 @@
 (*   NEDistanceAdmission   a non-emitting candidate is admitted only if it  *)
 (*                         is not farther than the emitting entry of the    *)
 (*                         same state at the next observation               *)
+(*   KeepStoppedUnderDebug when cf.debug (package logger at DEBUG) candidates *)
+(*                         that are cut off or rejected are materialised as  *)
+(*                         stopped entries, at exactly the sites of the code *)
 (*   LayerOrderedLastChoice the last state is the best of the deepest       *)
 (*                         non-empty layer, first of equals in layer order  *)
 (***************************************************************************)
@@ -83,15 +86,16 @@ DoStop(cf, lp, len, dist) == \/ lp * cf.minlp[2] < cf.minlp[1] * len
 \* ---- BaseMatching.first
 First(I, cf, st) ==
   LET lo == I.lE[st][0]  d == I.dE[st][0] IN
-  IF DoStop(cf, lo, 1, d) THEN << >>
+  IF DoStop(cf, lo, 1, d) /\ ~cf.debug THEN << >>
   ELSE << [st |-> st, obs |-> 0, ne |-> 0, lp |-> lo, lpe |-> lo, lpne |-> 0, prev |-> << >>,
-           stop |-> FALSE, len |-> 1, delayed |-> 0, dist |-> d] >>
+           stop |-> DoStop(cf, lo, 1, d), len |-> 1, delayed |-> 0, dist |-> d] >>       \* KeepStoppedUnderDebug
 
 \* ---- BaseMatching.next: a sequence of zero or one new entry
 Nxt(I, cf, lat, m, st, obs, ne) ==
-  IF ne = 0 /\ IsEdge(st) /\ ~cf.onlyEdges /\ I.tiE[st][obs] # 1 THEN << >>     \* EdgeInteriorOnly
+  IF ne = 0 /\ IsEdge(st) /\ ~cf.onlyEdges /\ I.tiE[st][obs] # 1 /\ ~cf.debug THEN << >>     \* EdgeInteriorOnly
   ELSE
-  LET d  == IF ne = 0 THEN I.dE[st][obs] ELSE I.dN[st][obs]
+  LET tooClose == ne = 0 /\ IsEdge(st) /\ ~cf.onlyEdges /\ I.tiE[st][obs] # 1
+      d  == IF ne = 0 THEN I.dE[st][obs] ELSE I.dN[st][obs]
       lo == IF ne = 0 THEN I.lE[st][obs] ELSE I.lN[st][obs]
       lt == Trans(I, cf, lat, m, st, m.ne # 0, ne # 0)
       dl == lt + lo
@@ -99,9 +103,10 @@ Nxt(I, cf, lat, m, st, obs, ne) ==
       lpne == IF ne = 0 THEN 0 ELSE (IF m.lpne < dl THEN m.lpne ELSE dl)
       lp   == IF ne = 0 THEN lpe ELSE lpe + lpne
       ln   == IF ne = 0 THEN m.len + 1 ELSE m.len
-  IN IF DoStop(cf, lp, ln, d) THEN << >>
+      stop == tooClose \/ DoStop(cf, lp, ln, d)
+  IN IF stop /\ ~cf.debug THEN << >>
      ELSE << [st |-> st, obs |-> obs, ne |-> ne, lp |-> lp, lpe |-> lpe, lpne |-> lpne, prev |-> Key(m),
-              stop |-> FALSE, len |-> ln, delayed |-> m.delayed, dist |-> d] >>
+              stop |-> stop, len |-> ln, delayed |-> m.delayed, dist |-> d] >>                  \* KeepStoppedUnderDebug
 
 \* ---- lattice access.  lat[c + 1] = column c = sequence of layers; layer k is lat[c+1][k+1]
 NCols(lat) == Len(lat)
@@ -242,7 +247,8 @@ NEInnerStep(I, cf, S, m, st, c, nb) ==
                ELSE <<Upsert(lat, e), lb>>
             ELSE                  \* node states
                IF j # 0 THEN <<Upsert(lat, e), lb>>
-               ELSE IF LbHas(lb, st) /\ ~(e.dist < lb[st].d) THEN S
+               ELSE IF LbHas(lb, st) /\ ~(e.dist < lb[st].d) THEN
+                       (IF cf.debug THEN <<Upsert(lat, [e EXCEPT !.stop = TRUE]), lb>> ELSE S)   \* KeepStoppedUnderDebug
                ELSE <<Upsert(lat, e), LbSet(lb, st, [d |-> e.dist, lp |-> e.lp, k |-> Key(e)])>>
 
 RECURSIVE NEInnerFold(_, _, _, _, _, _, _)
@@ -256,7 +262,8 @@ NEEndStep(I, cf, S, m, st, c1) ==
   ELSE LET x == Nxt(I, cf, lat, m, st, c1, 0) IN
        IF x = << >> THEN S
        ELSE LET e == x[1] IN
-            IF LbHas(lb, st) /\ ~(e.lp > LbLp(lat, lb[st])) THEN S
+            IF LbHas(lb, st) /\ ~(e.lp > LbLp(lat, lb[st])) THEN
+                 (IF cf.debug THEN <<Upsert(lat, [e EXCEPT !.stop = TRUE]), lb>> ELSE S)         \* KeepStoppedUnderDebug
             ELSE LET fresh == ~HasKey(lat, Key(e)) IN
                  <<Upsert(lat, e),
                    LbSet(lb, st, [d |-> e.dist, lp |-> e.lp, k |-> IF fresh THEN Key(e) ELSE << >>])>>
@@ -324,7 +331,7 @@ Build(lat, start) == LET b == BestLast(lat[start + 1]) IN IF b = << >> THEN << >
 (***************************************************************************)
 Result(lat, n, early0) ==
   LET lastLive == Len(Live(AllEntries(lat[n]))) > 0
-      early == IF early0 <= 0 /\ ~lastLive THEN n - 1 ELSE early0       \* "if not self.early_stop_idx"
+      early == IF early0 = -1 /\ ~lastLive THEN n - 1 ELSE early0       \* "if self.early_stop_idx is None"
   IN IF early # -1 THEN (IF early = 0 THEN [path |-> << >>, idx |-> 0, early |-> early]
                          ELSE [path |-> Build(lat, early - 1), idx |-> early - 1, early |-> early])
      ELSE [path |-> Build(lat, n - 1), idx |-> n - 1, early |-> -1]
